@@ -7,10 +7,15 @@ from concurrent.futures import ThreadPoolExecutor
 V = os.path.dirname(os.path.dirname(os.path.abspath(__file__)))
 
 
+OWN = False
+
+
 def run(sid):
     d = os.path.join(V, 'seeded', sid)
     m = json.load(open(os.path.join(V, 'MANIFEST.json')))
     props = [c['property_id'] for c in m['checks']]
+    if OWN:                                   # only the check of the property the change was written against
+        props = ['C' + sid[1:3]]
     r = subprocess.run(['git', '-C', '/repo', 'apply', '--3way', os.path.join(d, 'patch.diff')], capture_output=True, text=True)
     if r.returncode != 0:
         r = subprocess.run(['git', '-C', '/repo', 'apply', os.path.join(d, 'patch.diff')], capture_output=True, text=True)
@@ -32,10 +37,20 @@ def run(sid):
     fired = {p: lines for p, rc, lines in out if rc == 1}
     broken = [p for p, rc, lines in out if rc == 2]
     res = dict(seed=sid, checks_run=props, fired=fired, analysis_broken=broken)
+    if OWN and os.path.exists(os.path.join(d, 'result.json')):
+        old = json.load(open(os.path.join(d, 'result.json')))
+        old['fired'].update(fired)
+        old['own_check_fires'] = bool(fired)
+        old['analysis_broken'] = sorted(set(old.get('analysis_broken', [])) - set(props) | set(broken))
+        res = old
     json.dump(res, open(os.path.join(d, 'result.json'), 'w'), indent=1)
     print('%-14s fired: %s%s' % (sid, ', '.join('%s[%s]' % (p, ';'.join(sorted({l.split(' ')[0] for l in ls}))) for p, ls in fired.items()) or 'NONE', ('  BROKEN: ' + ','.join(broken)) if broken else ''))
 
 
 if __name__ == '__main__':
-    for s in sys.argv[1:]:
+    args = sys.argv[1:]
+    if args and args[0] == '--own':
+        OWN = True
+        args = args[1:]
+    for s in args:
         run(s)
